@@ -331,6 +331,8 @@ Proof.
     cbn [head_len tails app] in Q. rewrite Z.add_0_r in Q.
     destruct Q as (Q1 & Q2 & Q3 & Q4); auto.
     { rewrite DS, HL. unfold BOUND. nia. }
+    assert (HB0 : 0 <= BOUND) by (unfold BOUND; nia).
+    clearbody BOUND. clear Hn1.
     pose proof (head_len_nonneg all). pose proof (zlen_nonneg (tails all)).
     assert (L : zlen (word (zlen vs) ++ enc_seq all) = 32 + (head_len all + zlen (tails all)))
       by (unfold enc_seq; rewrite !zlen_app, zlen_word, zlen_heads; lia).
@@ -339,7 +341,7 @@ Proof.
       * transitivity (mreadz m1 d 32). { apply mreadz_ext. intros a Ha. apply Q4. lia. }
         pose proof (mreadz_mwrite m d (word (zlen vs))) as X. rewrite zlen_word in X. exact X.
       * rewrite mreadz_app by lia. unfold enc_seq. now rewrite Q2, Q3.
-    + intros a Ha. rewrite Hsz in Ha. cbn [fst]. Show. rewrite Q4 by lia. unfold m1, mstore. apply mwrite_frame. rewrite zlen_word. lia.
+    + intros a Ha. rewrite Hsz in Ha. cbn [fst]. rewrite Q4 by lia. unfold m1, mstore. apply mwrite_frame. rewrite zlen_word. lia.
   - (* tuple *)
     destruct (is_dynamic (TTuple ts)) eqn:Hd; [|apply venc_static; auto].
     destruct v as [| |vs]; try (cbn in Hin; discriminate). cbn [in_type wf_ty] in *.
